@@ -204,7 +204,7 @@ def generate(rng, tier):
         elif r < 0.53:
             op = {"op": "join", "dst": dst, "sep": rng.choice(sorted(live)),
                   "items": [gen_operand(rng, live, ncolors) for _ in range(rng.randint(0, 4))],
-                  "items_as": rng.choice(["list", "list", "gen", "tuple", "iter"])}
+                  "items_as": rng.choice(["list", "list", "gen", "tuple", "iter", "growing"])}
         elif r < 0.60:
             op = {"op": "index", "dst": dst, "a": rng.choice(sorted(live)), "i": rng.choice([0, 1, 2, 4, 7, 12, -1, -2, -5, -13, 30, -30])}
         elif r < 0.74:
@@ -702,15 +702,35 @@ def apply(w, op):
             return
         sep = w.model[op["sep"]].cells
         out = []
-        for n, it in enumerate(op["items"]):
-            if n:
-                out.extend(sep)
-            w.model_operand(it, out)
+        how = op.get("items_as")
+        if how == "growing":
+            # a generator that yields ONE text it keeps growing between the yields (a trail, "steps done so far"):
+            # what is joined is what the text showed at each yield
+            acc = []
+            for n, it in enumerate(op["items"]):
+                if n:
+                    out.extend(sep)
+                w.model_operand(it, acc)
+                out.extend(acc)
+        else:
+            for n, it in enumerate(op["items"]):
+                if n:
+                    out.extend(sep)
+                w.model_operand(it, out)
         if len(out) > w.max_cells:
             return
         items = [w.real_operand(it) for it in op["items"]]
-        how = op.get("items_as")
-        if how == "gen":
+        if how == "growing":
+            pieces = items
+
+            def growing():
+                trail = CHText()
+                for piece in pieces:
+                    trail += piece
+                    yield trail
+            items = growing()
+            st["growing_generators"] = st.get("growing_generators", 0) + 1
+        elif how == "gen":
             items = (x for x in items)          # "iterable": a generator can be walked once only
         elif how == "tuple":
             items = tuple(items)
